@@ -106,6 +106,33 @@ def _labelled(ctx, case):
             ctx.violation(dict(case, lines=[segs]), key, "input=%r output=%r expected=%r" % (src, got, exp))
             if key != "ipv6-dotted-quad-tail":
                 return
+    # the public text function with ONE anonymizer object used in both directions on the same text
+    nc = load.nc()
+    a4 = ipgen.build({"fam": 4, "salt": fcfg["salt"], "B": fcfg.get("B4"), "pp": fcfg.get("pp"), "pa": fcfg.get("pa")})
+    a6 = ipgen.build({"fam": 6, "salt": fcfg["salt"], "B": fcfg.get("B6")})
+    for segs in lns[:12]:
+        if any(l["t"] in ("v6tail", "near") for _, l in segs):
+            continue
+        src = lines.text_of(segs)
+        order = rng.choice([(False, True, False), (True, False, True)])
+        for undo in order:
+            got = nc.ip.anonymize_ip_addr(a4, nc.ip.anonymize_ip_addr(a6, src, undo), undo)
+            parts = []
+            for text, lab in segs:
+                if lab["t"] == "v4":
+                    v = lab["v"]
+                    parts.append(text if ref.untouched4(v) else ipref.s4(ref.inv4(v) if undo else ref.fwd4(v)))
+                elif lab["t"] == "v6":
+                    parts.append(ipref.s6(ref.inv6(lab["v"]) if undo else ref.fwd6(lab["v"])))
+                else:
+                    parts.append(text)
+            exp = "".join(parts)
+            ctx.count("both_direction_lines_checked")
+            if got != exp:
+                ctx.violation(dict(case, lines=[segs]), "direction-history:" + _first_wrong(segs, parts, got),
+                              "anonymize_ip_addr(undo=%s) after the other direction on the same anonymizer: input=%r output=%r expected=%r"
+                              % (undo, src, got, exp))
+                return
     ctx.sample({"kind": "labelled", "fcfg": fcfg, "line": lines.text_of(lns[0])})
 
 
